@@ -16,14 +16,20 @@ for m in sorted(glob.glob('/verif/seeded/*/meta.json')):
             keys = ', '.join(sorted({str(k) for k in c.get('violation_keys', [])})[:2])
             cell.append('%s: VIOLATION, %s [%s]' % (p, how, keys[:110]))
         else:
-            cell.append('%s: **missed** (exit %s)' % (p, c.get('exit_code')))
+            cell.append('%s: not flagged (exit %s)' % (p, c.get('exit_code')) if d.get('note') else '%s: **missed** (exit %s)' % (p, c.get('exit_code')))
+    if d.get('note'):
+        cell.append('note: ' + d['note'])
+    if d.get('rebased'):
+        cell.append(d['rebased'])
     rows.append('| %s | %s | %s | %s |' % (name, (d.get('summary') or '')[:230].replace('|', '/').replace('\n', ' '),
                                          (d.get('needs') or '')[:170].replace('|', '/').replace('\n', ' '), '<br>'.join(cell)))
 out = ['# Seeded changes', '',
        'Each directory holds `patch.diff` (a change to /repo that breaks the named property while the 246 tests still pass), `demo.py`',
        '(fails with the change, passes without) written by an independent agent that saw only the property text, and `meta.json`',
        '(what it needs to manifest, what was run, which checks caught it).  Apply with `git -C /repo apply seeded/<id>/patch.diff`,',
-       'run `./check <prop> --tier quick`, undo with `git -C /repo checkout -- .`.', '',
+       'run `./check <prop> --tier quick`, undo with `git -C /repo checkout -- .`.  Three rounds: `Cxx-k` (first), `Cxx-r2-k` (second:',
+       'different kinds and sites), `Cxx-r3-k` (third: histories, rare configurations, exceptions in rare branches, floating-point corner cases,',
+       'shared code, innocent-looking clean-ups).  The `checks` column is the result of the LAST regression run of every seed against the current checks.', '',
        '| id | change | needs to manifest | checks |', '|---|---|---|---|'] + rows
 open('/verif/seeded/README.md', 'w').write('\n'.join(out) + '\n')
 print(len(rows), 'rows')
